@@ -408,6 +408,8 @@ pub fn c01_families(tier: &str) -> Vec<SeqSpec> {
         .flush(),
     );
     v.push(staggered_family("F-staggered/T300", if t { 6 } else { 4 }, READS));
+    v.push(l0_overlap_family("F-l0-overlap-low/T300", true, if t { 4 } else { 3 }, READS));
+    v.push(l0_overlap_family("F-l0-overlap-high/T300", false, if t { 4 } else { 3 }, READS));
     // from the empty database with tiny level limits: files with distinct keys are moved down level
     // by level without being rewritten (trivial moves), the same file several times within one
     // manifest, and the manifest is replayed by the reopen
@@ -453,7 +455,7 @@ pub fn c10(tier: &str) -> ! {
     let mut fams = fams;
     let t = thorough(tier);
     fams.insert(1, spec("C10-snap/T300", &["T300"], k2(), a_c03_small(), if t { 7 } else { 5 }, lay).flush());
-    fams.insert(2, spec("C10-snap/T1", &["T1"], k2(), a_c03_small(), if t { 7 } else { 4 }, lay).flush());
+    fams.insert(2, spec("C10-snap/T1", &["T1"], k2(), a_c03_small(), if t { 7 } else { 5 }, lay).flush());
     run_families(&mut rep, fams, budget(tier), |c| c.starts_with("C10."));
     finish_common(&mut rep);
     rep.cov("oracle", json!("after every operation (background idle) and every reopen: levels >= 1 sorted and pairwise disjoint in internal-key order, smallest <= largest, metadata bounds equal first/last stored entry, entries sorted, no duplicate file number, NumFilesAtLevel and SSTables text agree with the structured layout"));
@@ -519,6 +521,10 @@ pub fn c07(tier: &str) -> ! {
     fams.push(rich_family("C07-rich/T300", k3(), a_c07_small(), if t { 5 } else { 3 }, ck));
     fams.push(levels_family("C07-levels/L", "L", k4(), a_c07_small(), if t { 4 } else { 3 }, ck));
     fams.push(staggered_family("C07-staggered/T300", if t { 5 } else { 3 }, ck));
+    // the extreme byte-string keys (empty, 0x00, 0xff) through deletes and ranged compactions
+    fams.push(spec("C07-bytes/T300", &["T300"], vec![vec![], vec![0x00], vec![0xff]], a_c07_small(), if t { 5 } else { 3 }, ck).flush());
+    fams.push(l0_overlap_family("C07-l0-overlap-low/T300", true, if t { 4 } else { 3 }, ck));
+    fams.push(l0_overlap_family("C07-l0-overlap-high/T300", false, if t { 4 } else { 3 }, ck));
     if t {
         fams.push(spec("C07-full/T300", &["T300"], k3(), a_c07_full(), 4, ck).flush());
         fams.push(spec("C07-ranged/T1", &["T1"], k3(), a_c07_small(), 5, ck).flush());
@@ -690,6 +696,9 @@ pub fn c09_seq_families(tier: &str) -> Vec<SeqSpec> {
     fams.push(spec("C09-all/T300", &["T300"], k3(), a_c09(), if t { 4 } else { 3 }, ck).flush());
     fams.push(spec("C09-all/M2", &["M2"], k3(), a_c09(), if t { 4 } else { 2 }, ck).lazy());
     fams.push(spec("C09-A1/M2", &["M2"], k3(), a1(), if t { 7 } else { 5 }, ck).lazy());
+    // live snapshots: compactions keep several versions of one key and cut output files between them
+    fams.push(spec("C09-snap/T300", &["T300"], k2(), a_c03_small(), if t { 7 } else { 5 }, ck).flush());
+    fams.push(spec("C09-snap/T1", &["T1"], k2(), a_c03_small(), if t { 7 } else { 5 }, ck).flush());
     if t {
         fams.push(spec("C09-A1/M2", &["M2"], k3(), a1(), 7, ck).bgfirst());
     }
@@ -999,6 +1008,34 @@ pub fn staggered_family(name: &str, depth: usize, ck: Checks) -> SeqSpec {
     spec(name, &["T300"], k4s(), alphabet, depth, ck)
         .flush()
         .with_setup(vec![Op::Batch(vec![(0, true), (1, true)]), Op::Flush, Op::Batch(vec![(2, true), (3, true)]), Op::Flush])
+}
+
+/// Two overlapping level-0 files above a level-1/level-2 pair that they do not both touch, the
+/// newer level-0 file reaching further to one side: ranged manual compactions (open and closed
+/// ranges at every key) must take both level-0 files or neither. `low`: the newer file reaches
+/// below the older one (bounded-end ranges select it alone), else above it.
+pub fn l0_overlap_family(name: &str, low: bool, depth: usize, ck: Checks) -> SeqSpec {
+    let mut alphabet = vec![Op::Put(0, 0), Op::Put(2, 0), Op::Del(1), Op::Batch(vec![(1, true), (2, true)])];
+    let ends: Vec<Option<u8>> = vec![None, Some(0), Some(1), Some(2), Some(3)];
+    for b in ends.iter() {
+        for e in ends.iter() {
+            let keep = match (b, e) {
+                (None, _) | (_, None) => true,
+                (Some(x), Some(y)) => x == y || (*x == 0 && *y == 1) || (*x == 2 && *y == 3),
+            };
+            if keep {
+                alphabet.push(Op::Compact(*b, *e));
+            }
+        }
+    }
+    let setup = if low {
+        // L2 [f], L1 [f], L0 older [d e f], L0 newer [c e]
+        vec![Op::Put(3, 0), Op::Flush, Op::Put(3, 0), Op::Flush, Op::Batch(vec![(1, true), (2, true), (3, true)]), Op::Flush, Op::Batch(vec![(0, true), (2, true)]), Op::Flush]
+    } else {
+        // L2 [c], L1 [c], L0 older [c d e], L0 newer [d f]
+        vec![Op::Put(0, 0), Op::Flush, Op::Put(0, 0), Op::Flush, Op::Batch(vec![(0, true), (1, true), (2, true)]), Op::Flush, Op::Batch(vec![(1, true), (3, true)]), Op::Flush]
+    };
+    spec(name, &["T300"], k4s(), alphabet, depth, ck).flush().with_setup(setup)
 }
 
 /// four stored keys c < d < e < f
